@@ -12,7 +12,8 @@ CONFIGS_THOROUGH = ["default", "nopar", "r1cs"]
 EXPLANATION = (
     "Static rules on the MIR of every batch verifier and its callees. R4a: the zip that pairs the proof list with "
     "the grouped claims is dominated by a comparison of the two lengths (missing or surplus proofs cannot go "
-    "unnoticed). R1: the verifier's rng parameter can influence the outcome in the four verifiers that take a random "
+    "unnoticed); where a verifier pairs them by position instead (an index loop), the same comparison must dominate the "
+    "indexed read. R1: the verifier's rng parameter can influence the outcome in the four verifiers that take a random "
     "linear combination (a combiner that ignores the rng is constant), and R15: at least one draw from that rng "
     "whose result reaches the outcome sits on a cycle of the control-flow graph, i.e. is re-drawn per query - a "
     "combiner drawn once lets errors planted in two queries cancel. Equality of the batch decision with the "
@@ -37,8 +38,11 @@ def run(rep, ctx, tier):
             continue
         n = R4.run_zip(rep, ctx, a, "R4a")
         if n < 1:
+            # no zip: the proof list may be paired with the claims by position (bounds-checked indexing)
+            n = R4.run_positional(rep, ctx, a, "R4a")
+        if n < 1:
             rep.add("R4a", "%s:floor" % key, False,
-                    "no zip of the proof list against the claims found in %s (floor 1): the rule would pass vacuously" % key,
+                    "neither a zip of the proof list against the claims nor a positional read of it found in %s (floor 1): the rule would pass vacuously" % key,
                     a.body.span)
     for key in COMBINING:
         a = anchors.get(key)
